@@ -645,8 +645,8 @@ def modularity_finetune_dir(W, ci=None, gamma=1, seed=None):
 
     k_o = np.sum(knm_o, axis=1)  # node out-degree
     k_i = np.sum(knm_i, axis=1)  # node in-degree
-    km_o = np.sum(knm_o, axis=0)  # module out-degree
-    km_i = np.sum(knm_i, axis=0)  # module out-degree
+    km_o = np.sum(knm_i, axis=0)  # module out-degree
+    km_i = np.sum(knm_o, axis=0)  # module in-degree
 
     flag = True
     while flag:
@@ -666,10 +666,10 @@ def modularity_finetune_dir(W, ci=None, gamma=1, seed=None):
                 mb = np.argmax(dq)  # take only one value
                 # print max_dq,mb
 
-                knm_o[:, mb] += W[u, :].T  # change node-to-module out-degrees
-                knm_o[:, ma] -= W[u, :].T
-                knm_i[:, mb] += W[:, u]  # change node-to-module in-degrees
-                knm_i[:, ma] -= W[:, u]
+                knm_o[:, mb] += W[:, u]  # change node-to-module out-degrees
+                knm_o[:, ma] -= W[:, u]
+                knm_i[:, mb] += W[u, :].T  # change node-to-module in-degrees
+                knm_i[:, ma] -= W[u, :].T
                 km_o[mb] += k_o[u]  # change module out-degrees
                 km_o[ma] -= k_o[u]
                 km_i[mb] += k_i[u]  # change module in-degrees
